@@ -223,6 +223,57 @@ def check_leaves(ctx, key, impl, ans):
             break
 
 
+# ------------------------------------------------------------------ stream: defrange
+# get_definition_start_position / get_definition_end_position of real names against Model/DefRange on the leaves
+# of the definition node parso picks (type, prefix, value; laid out from the start of the first leaf's prefix)
+
+def stream_defrange(ctx, reqs):
+    import jedi
+    rng = ctx.subrng('defrange')
+    cases = []
+    for i in range(ctx.size(50, 1200)):
+        text = texts.valid_text(rng, fancy=True) if i % 4 else texts.mutant(rng, texts.valid_text(rng, fancy=True))
+        if text.startswith('\ufeff') or '\x0c' in text:
+            continue                 # BOM / form feed columns: findings C17-bom-*, C17-formfeed-* (model: ParsoPos)
+        try:
+            names = jedi.Script(text).get_names(all_scopes=True, definitions=True, references=True)
+        except Exception:   # noqa: totality is C01's statement
+            continue
+        for n in rng.sample(names, min(len(names), 8)):
+            try:
+                tn = n._name.tree_name
+                if tn is None:
+                    continue
+                d = tn.get_definition()
+                real = [n.get_definition_start_position(), n.get_definition_end_position()]
+                typ = n.type
+            except Exception:   # noqa
+                continue
+            node = d if d is not None else tn
+            first, last = node.get_first_leaf(), node.get_last_leaf()
+            leaves, idx, leaf = [], None, first
+            while True:
+                if leaf is tn:
+                    idx = len(leaves)
+                leaves.append([leaf.type, leaf.prefix, leaf.value])
+                if leaf is last:
+                    break
+                leaf = leaf.get_next_leaf()
+                if leaf is None:
+                    break
+            if idx is None:
+                continue
+            prev = first.get_previous_leaf()
+            before = None if prev is None else [prev.type, prev.start_pos[0], prev.start_pos[1],
+                                                prev.end_pos[0], prev.end_pos[1]]
+            p0 = list(first.get_start_pos_of_prefix())
+            reqs.append({'op': 'defrange', 'leaves': leaves, 'p': p0, 'name': idx, 'type': typ,
+                         'hasdef': d is not None, 'before': before})
+            cases.append((('defrange', text, n.line, n.column, n.name, typ, d.type if d is not None else None),
+                          {'range': [list(real[0]), list(real[1])], 'name': [list(tn.start_pos), list(tn.end_pos)]}))
+    return cases
+
+
 # ------------------------------------------------------------------ stream B: results of queries
 
 def check_result_object(ctx, script_path, text, method, n, stats):
@@ -492,6 +543,22 @@ def compare(ctx, cases, answers):
         elif stream == 'scriptparse':
             from props import c17_files
             c17_files.compare_scriptparse(ctx, key, impl, ans)
+        elif stream == 'defrange':
+            _, text, line, col, name, typ, dtype = key
+            ctx.count('defrange', key, nontrivial=dtype is not None, bucket='%s/%s' % (typ, dtype))
+            model = {'range': [ans.get('start'), ans.get('end')], 'name': ans.get('name')}
+            if model != impl:
+                ctx.tie_broken('correspondence:defrange', short({'source': text, 'name': [line, col, name], 'type': typ,
+                                                                 'definition': dtype, 'impl': impl, 'model': model}, 900))
+                # failing-input search: the property's own clause on this very name
+                (s0, e0), (ns, ne) = impl['range'], impl['name']
+                if not (tuple(s0) <= tuple(ns) and tuple(ne) <= tuple(e0)):
+                    ctx.fail('results', 'definition range does not enclose the name',
+                             {'source': text, 'method': 'get_names', 'name': name, 'where': 'buffer', 'bom': False},
+                             expected='start <= name start and name end <= end',
+                             observed={'line': line, 'column': col, 'def_start': s0, 'def_end': e0, 'name_end': ne},
+                             how='jedi.Script(source).get_names(all_scopes=True, definitions=True, references=True) -> '
+                                 '.get_definition_start_position() / .get_definition_end_position()')
         elif stream == 'linecode':
             _, text, line, b, af = key
             ctx.count('linecode', key, nontrivial=True, bucket='b=%d,a=%d' % (b, af))
@@ -570,6 +637,8 @@ def run(ctx):
     lap('linecode+names')
     cases += c17_files.stream_scriptparse(ctx, reqs)
     lap('scriptparse')
+    cases += stream_defrange(ctx, reqs)
+    lap('defrange')
     stream_known(ctx)
     stream_tokens(ctx)
     lap('tokens')
